@@ -92,6 +92,11 @@ func c06Domain(r *rand.Rand, name string, isInt bool, na string, withNA bool) []
 			d = append(d, fmt.Sprintf("%c%s%d", name[0], []string{"A", "b", "X_", "v"}[r.Intn(4)], i))
 		}
 	}
+	if !isInt && r.Intn(4) == 0 {
+		// values holding the characters a composite key could be joined with: with two category
+		// attributes, ("A|B","C") and ("A","B|C") are different classes
+		d = []any{"A", "B", "C", "A|B", "B|C", "A,B", "B,C", "A B", "B C", "A/B", "B/C"}
+	}
 	if isInt && r.Intn(4) == 0 {
 		// large identifiers that differ in their last digit only (distinct integers, equal once rounded
 		// to single precision)
@@ -204,6 +209,21 @@ func C06Generate(r *rand.Rand, p C06Params) *C06Workload {
 			w.IntValues = true
 		}
 		attrs = append(attrs, a)
+	}
+	if len(w.Opts.Cats) >= 2 && r.Intn(3) == 0 {
+		// two category attributes whose values, joined with a separator, collide: ("A|B","C") and
+		// ("A","B|C") are different classes (and so with ',', ' ', '/', '_')
+		sep := []string{"|", ",", " ", "/", "_", ":", ";"}[r.Intn(7)]
+		for i := range attrs {
+			switch attrs[i].name {
+			case w.Opts.Cats[0]:
+				attrs[i].isInt, attrs[i].present = false, 1000
+				attrs[i].domain = []any{"A", "A" + sep + "B"}
+			case w.Opts.Cats[1]:
+				attrs[i].isInt, attrs[i].present = false, 1000
+				attrs[i].domain = []any{"C", "B" + sep + "C"}
+			}
+		}
 	}
 	premergedRate := []int{0, 0, 150, 500}[r.Intn(4)]
 
